@@ -307,9 +307,11 @@ renderer's listen goroutine is stopped and writes nothing (`tick` is not enabled
 been restored (no mode sequence outstanding, one more `restoreTerminalState`), signals are ignored
 (no signal step exists), and the input is left to the command: a cancelable reader has been asked to
 stop.  AT THE END (`sf`, Update has the execMsg): there is a read loop iff the program has an
-input, the renderer is listening again, signals are OBEYED - this is the value before the Exec
-iff signals were obeyed before: a WithoutSignals program obeys signals from its first Exec on, see
-`C18_ignored_partial` -, the mode sequences have been written again, and exactly two callers have
+input, the renderer is listening again, the ignore-signals flag has the value the program was
+configured with (WithoutSignals or not; `C18_ignored`) and no release is stuck any more - so the flag
+is what it was before the Exec, unless a release had been stuck before (a failed release, a
+panicked command: the flag was set; this Exec repairs it) -, the mode sequences have been written
+again, and exactly two callers have
 been appended (the goroutines that Send the repaint / size message and the callback's message),
 the sender of the Exec message having returned. -/
 theorem C17_lts_exec_roundtrip (c : Config) (s : St) (hr : Reachable c s) (hsel : s.el = .select)
@@ -323,16 +325,21 @@ theorem C17_lts_exec_roundtrip (c : Config) (s : St) (hr : Reachable c s) (hsel 
        (s.reader ≠ .absent → s.cancelable = true → sm.readerCancelRequested = true)) ∧
       -- when Update receives the execMsg
       (sf.el = .callback ∧ (sf.reader = .reading ↔ s.withInput = true) ∧ sf.listen = .idle ∧
-       sf.ignoreSignals = false ∧ (s.ignoreSignals = false → sf.ignoreSignals = s.ignoreSignals) ∧
+       sf.ignoreSignals = c.ignoreSignals ∧ sf.releaseStuck = false ∧
+       (s.releaseStuck = false → sf.ignoreSignals = s.ignoreSignals) ∧
        sf.modesDirty = true ∧
        sf.senders = s.senders.set e { cl with pc := .returned } ++ execCallers ∧
        sf.senders.length = s.senders.length + 2) := by
   obtain ⟨sm, sf, h1, h2, h3, hd, ha⟩ := exec_roundtrip hr hsel hli he hk hb
   refine ⟨sm, sf, h1, h2, h3,
     ⟨hd.el, hd.listen, hd.noTick, hd.modes, hd.restores, hd.signals.1, hd.signals.2, hd.cancel⟩,
-    ⟨ha.el, ha.reader, ha.listen, ha.signals, fun h => by rw [ha.signals, h], ha.modes, ha.senders, ?_⟩⟩
-  rw [ha.senders]
-  simp [execCallers]
+    ⟨ha.el, ha.reader, ha.listen, ha.signals.1.trans (inv_withoutSignals hr), ha.signals.2.1, ?_,
+      ha.modes, ha.senders, ?_⟩⟩
+  · intro hst
+    rw [ha.signals.1, inv_withoutSignals hr, inv_sig hr, hsel, hst]
+    simp [ElPc.released]
+  · rw [ha.senders]
+    simp [execCallers]
 
 /-- **THE CALLBACK'S MESSAGE IS DELIVERED AT MOST ONCE.**  (1) The loop receives the message of a
 caller only while that caller is blocked in Send, and the caller has returned afterwards.  (2) A
@@ -377,7 +384,8 @@ theorem lts_execRound_def (e : Nat) :
 Exec messages waiting in Send: the Execs can be run one after the other (each with its Update and
 View; by induction on the number), and after the last one the loop is again at its `select` with the
 renderer listening and the dispatcher alive - the hypotheses of `C17_lts_exec_roundtrip` hold again -,
-signals are obeyed, the mode sequences are written, there is a read loop iff the program has an
+the ignore-signals flag has the value the program was configured with and no release is stuck, the
+mode sequences are written, there is a read loop iff the program has an
 input, every Exec has restored the terminal once and has appended its two callers, and every
 Exec message has been received exactly once (its sender has returned). -/
 theorem C17_lts_repeat (c : Config) (s : St) (hr : Reachable c s) (hsel : s.el = .select)
@@ -385,12 +393,15 @@ theorem C17_lts_repeat (c : Config) (s : St) (hr : Reachable c s) (hsel : s.el =
     (hall : ∀ e ∈ es, ∃ cl, s.senders[e]? = some cl ∧ cl.kind = .exec ∧ cl.pc = .blocked) :
     ∃ sf, runLabels s (es.flatMap execRound) = some sf ∧
       sf.el = .select ∧ sf.listen = .idle ∧ sf.dispAlive = true ∧
-      sf.ignoreSignals = false ∧ sf.modesDirty = true ∧ (sf.reader = .reading ↔ sf.withInput = true) ∧
+      sf.ignoreSignals = c.ignoreSignals ∧ sf.releaseStuck = false ∧ sf.modesDirty = true ∧
+      (sf.reader = .reading ↔ sf.withInput = true) ∧
       sf.senders.length = s.senders.length + 2 * es.length ∧ sf.restores = s.restores + es.length ∧
       (∀ e ∈ es, ∃ cl, sf.senders[e]? = some cl ∧ cl.kind = .exec ∧ cl.pc = .returned) := by
   obtain ⟨sf, h1, h2, h3, h4, h5, h6⟩ :=
     exec_rounds es hr ⟨hsel, hli, hd⟩ hnd hall (fun h => absurd h hne)
-  exact ⟨sf, h1, h2.el, h2.listen, h2.disp, h3.signals, h3.modes, h3.reader, h4, h5, h6⟩
+  exact ⟨sf, h1, h2.el, h2.listen, h2.disp,
+    h3.signals.1.trans (inv_withoutSignals (reachable_runLabels _ hr h1)), h3.signals.2, h3.modes,
+    h3.reader, h4, h5, h6⟩
 
 /-! non-vacuity -/
 
